@@ -48,7 +48,7 @@ def tq(name, defs, uf=None, to=1200, weight=5):
 def queries(tier):
     qs = [PyQuery("static-objects-audit", audit_statics)]
     names = {0: "delta", 1: "for", 2: "pfor", 3: "dict", 4: "bitmap", 5: "tagged"}
-    for f in range(6):
+    for f in (0, 1, 2, 3, 5):
         qs.append(tq("adaptive-forced-%s" % names[f], {"CODEC": 20 + f}))
     qs.append(tq("adaptive-analyze-select", {"CODEC": 30}))
     qs.append(tq("for", {"CODEC": 1}))
